@@ -3,7 +3,8 @@
 (* An observation of a path is abstracted to [type, content, mtime]; a PAIR of observations *)
 (* additionally says whether the second object kept the inode of the first.                 *)
 (*   content: for a file  "A" and "B" have the same size and different bytes, "C" another   *)
-(*            size; for a symlink the same three as link targets; directories: "-"          *)
+(*            size, "E" is the empty file (size 0); for a symlink "A", "B", "C" as link       *)
+(*            targets; directories: "-"                                                     *)
 (*   mtime:   "t1", "t1n" (same second, different nanoseconds), "t2" (another second)       *)
 (* Verdict(mode, a, b, sameIno) is what the property DEMANDS of comparing the two FileInfo  *)
 (* records:  "eq", "ne", or "open" where the property is silent.                            *)
@@ -13,10 +14,10 @@ Contents == {"A", "B", "C"}
 MTimes == {"t1", "t1n", "t2"}
 Missing == [type |-> "missing", content |-> "-", mtime |-> "-"]
 Objs == {Missing}
-        \cup [type : {"file"}, content : Contents, mtime : MTimes]
+        \cup [type : {"file"}, content : Contents \cup {"E"}, mtime : MTimes]
         \cup [type : {"dir"}, content : {"-"}, mtime : MTimes]
         \cup [type : {"link"}, content : Contents, mtime : MTimes]
-SizeOf(o) == IF o.type = "dir" THEN "dirsize" ELSE IF o.content = "C" THEN "s2" ELSE "s1"
+SizeOf(o) == IF o.type = "dir" THEN "dirsize" ELSE IF o.content = "C" THEN "s2" ELSE IF o.content = "E" THEN "s0" ELSE "s1"
 
 VARIABLES mode, a, b, sameIno
 Init == /\ mode \in Modes /\ a \in Objs /\ b \in Objs /\ sameIno \in BOOLEAN
